@@ -143,7 +143,13 @@ def run(ctx):
                             'families + model; non-trivial = history with >=1 refusal and disconnect handlers triggered by >=2 '
                             'different causes')
     ctx.assumptions.append('asyncio interleavings at suspension points are decided by the sched kernel (see C20 check / DESIGN)')
+    # K5: asyncio schedules (Sio.C04sched.async_disconnect_once + real AsyncServer under controlled suspension)
+    from .. import sched_async
+    sched_async.run_async_schedules(ctx)
 
 
 def replay(ctx, r):
+    if isinstance(r.get('replay'), dict) and r['replay'].get('kernel') == 'sched_async':
+        from .. import sched_async
+        return sched_async.replay(ctx, r['replay'])
     return S.replay_case(ctx, r)
